@@ -27,7 +27,12 @@ LEVEL_TEXT = ('Binding lemma: for each signature shape (hidden parameters in '
               'or False) overrides the decorators, None keeps them, for all '
               '9 combinations x symbolic decorator flags '
               '(get_function_definition contracts).')
-LEVEL_NOTE = ('Shape family is finite (7 signatures x 15 call shapes); '
+LEVEL_NOTE = ('Also: every registered keyword survives call(name, args, '
+              'kwargs) (fact-level obligations); map_args checks every '
+              'supplied constant whichever way it is passed and an empty '
+              'slot needs a default; BOUNDED end-to-end comparison of all '
+              'spellings of every library function callable by name. '
+              'Shape family is finite (7 signatures x 16 call shapes); '
               'within a shape everything is symbolic. The convention '
               'translation itself (regex sub) and inspect.getfullargspec '
               'are trusted; the argument-list grammar itself (ply LALR) is '
